@@ -70,7 +70,7 @@ Definition rctx := list md.
 
 (* ord m = the order in which the receiver's map iteration visits m's entries *)
 Definition deliver (ord : msg -> md) (req : rctx) (m : msg) : nat * rctx :=
-  (mid m, match mmd m with [] => req | _ => req ++ [restore (ord m)] end).
+  (mid m, match mmd m with [] => req | _ => (req ++ [restore (ord m)])%list end).
 
 Fixpoint tell_loop (ord : msg -> md) (req : rctx) (batch : list msg) : list (nat * rctx) :=
   match batch with
@@ -87,7 +87,7 @@ Fixpoint md_subset (a b : md) : bool :=
   | [] => true
   | (k, v) :: r => match lookup k b with Some v' => String.eqb v v' | None => false end && md_subset r b
   end.
-Definition md_eqb (a b : md) : bool := Nat.eqb (length a) (length b) && md_subset a b && md_subset b a.
+Definition md_eqb (a b : md) : bool := Nat.eqb (List.length a) (List.length b) && md_subset a b && md_subset b a.
 
 Fixpoint insert_all {A} (x : A) (l : list A) : list (list A) :=
   match l with
